@@ -277,6 +277,23 @@ def worker(ctx):
             for _ in range(3 if ctx.tier == 'quick' else 10):
                 ctx.evaluations += 1
                 roundtrip(ctx, lad, rng.choice(['r', 'ra', 'rm', '']), 'ladder(%d)' % k, 'kekule')
+    # hydrogen-free main-group atoms as parsed (no recalculation): round trip in every style, and no two different ones share a string
+    seen_el = {}
+    for k, s in enumerate(G.ELEMENTAL):
+        try:
+            m = smiles(s)
+        except Exception:
+            continue
+        if ctx.mine(k):
+            ctx.count('base.elemental')
+            check_base(ctx, 'elemental', s, m, cfg, rng)
+        key = str(m)
+        rec = T.mol_record(m, stereo=False)
+        comp = sorted((a.atomic_number, a.charge, a.is_radical, a.implicit_hydrogens, a.isotope) for _, a in m.atoms())
+        if key in seen_el and seen_el[key][1] != comp and ctx.shard == 0:
+            ctx.violation('canonical-string-collision/elemental', '%s and %s both print as %s but differ in atoms %s vs %s' % (
+                seen_el[key][0], s, key, seen_el[key][1], comp), {'src': s, 'kind': 'elemental'})
+        seen_el.setdefault(key, (s, comp))
     for tag, s in todo:
         if ctx.out_of_time():
             ctx.note('time budget reached')
